@@ -76,6 +76,7 @@ def main():
             continue
         ck.bump('real_calls', res['counts']['calls'])
         ck.bump('real_states_visited', res['counts']['states'])
+        ck.bump('byvalue_calls', res['counts'].get('byvalue', 0))
         for r in res['records']:
             k = json.dumps(r, sort_keys=True)
             if not wellformed(r):
